@@ -240,10 +240,13 @@ def subprocess_tree(job):
             runs += 1
             cfg = {"tree": name, "config": "import"}
             if res.get("probe_failed") or res.get("import_error"):
+                err = str(res.get("import_error") or "probe failed")
+                cfg["detail"] = err.split("(")[0].strip()[:90]
                 bad.append((cfg, f"tree '{name}': `import eolib` fails on the generated package: {res}"))
             else:
                 for k in ("missing", "notclass", "mismatch"):
                     if res[k]:
+                        cfg["detail"] = k + ":" + ",".join(sorted({x[1] for x in res[k]}))[:120]
                         bad.append((cfg, f"tree '{name}': declared types {k}: {res[k][:5]}"))
                         break
         return name, runs, bad, len(realflow.declared_types(files, nf))
@@ -283,7 +286,7 @@ def run(tier, seed):
     ntypes = sum(r[3] for r in res2)
     for name, _, bads, _ in res2:
         for cfg, what in bads:
-            violations.append({"key": f"package:{name}:{cfg['config']}", "what": what, "case": dict(cfg, kind="subprocess", seeds=seeds)})
+            violations.append({"key": f"package:{name}:{cfg['config']}:{cfg.get('detail', '')}", "what": what, "case": dict(cfg, kind="subprocess", seeds=seeds)})
     counts, v3, _ = e3.run(tier, seed, LoadJudge())
     violations += v3
     total = inproc_runs + sub_runs + counts["evaluations"]
